@@ -21,7 +21,8 @@ def run(tier, seed):
     for it in range(ncase):
         mname, x0, p0 = p02.MODELS[it % len(p02.MODELS)]
         if tier == "quick" and mname == "shin-metiu" and it > 20: mname, x0, p0 = p02.MODELS[1]
-        model = M[mname](); n = model.nstates(); nd = model.ndim()
+        diab = (it % 4 == 1) and mname != "shin-metiu"
+        model = M[mname](representation="diabatic") if diab else M[mname](); n = model.nstates(); nd = model.ndim()
         x = np.array(x0) + np.array([rng.uniform(-1, 6) if nd == 1 else rng.uniform(-0.3, 0.3) for _ in range(nd)])
         kind = ["state", "pure-coherent", "mixed"][it % 3]
         if kind == "state":
@@ -31,9 +32,13 @@ def run(tier, seed):
         tr = mudslide.Ehrenfest(model, x, p0, rho, state0=0, dt=1.0)
         el = model.update(x)
         tr.electronics = el
-        pot = float(tr.potential_energy()); force = np.array(tr._force(), dtype=float)
+        try:
+            pot = float(tr.potential_energy()); force = np.array(tr._force(), dtype=float).reshape(nd)
+        except Exception as ex:
+            bad.append(dict(failed="potential_energy/_force raised or returned a wrong shape (%s: %s)" % (type(ex).__name__, ex), case=dict(model=mname, ndim=nd))); continue
         H = el.hamiltonian(); F = np.array(el._force); FM = np.array(el.force_matrix())
-        info = dict(model=mname, x=x.tolist(), initial=kind, nstates=n)
+        info = dict(model=mname, x=x.tolist(), initial=kind, nstates=n, representation="diabatic" if diab else "adiabatic")
+        res.count("representation/" + info["representation"])
         cases.append(tup(nat(n), nat(nd), cxss(rho), flss(H), flss(F), lst([lst([fls(FM[i, j]) for j in range(n)]) for i in range(n)]), fl(pot), fls(force)))
         meta.append(info)
         res.count("initial/" + kind); res.count("model/" + mname)
@@ -54,6 +59,14 @@ def run(tier, seed):
         elif kind != "state":
             repaired_hits += 1
     # never hops + energy conservation on real runs
+    # the label must not follow the populations: fast passage transfers the majority of the population
+    for mname, x0, p0, st0 in [("simple", [-3.0], [30.0], 0), ("dual", [-4.0], [30.0], 0), ("simple", [-3.0], [12.0], 1)]:
+        trl = mudslide.Ehrenfest(M[mname](), x0, p0, st0, dt=5.0, max_steps=400)
+        logl = trl.simulate()
+        pops = np.real(np.diag(np.asarray(logl[-1]["density_matrix"])))
+        res.count("label-probe"); res.extra.setdefault("label_probe_final_populations", {})["%s/p%g/s%d" % (mname, p0[0], st0)] = pops.tolist()
+        if set(int(s_["active"]) for s_ in logl) != {st0}:
+            bad.append(dict(failed="the active-state label never changes in an Ehrenfest trajectory (final populations %r)" % pops.tolist(), case=dict(model=mname, x0=x0, p0=p0, state0=st0)))
     for mname, x0, p0, T in [("simple", [-3.0], [10.0], 1600.0), ("dual", [-4.0], [20.0], 900.0)] + ([] if tier == "quick" else [("super", [-5.0], [10.0], 2000.0)]):
         drifts = []
         for dt in (8.0, 4.0, 2.0):
